@@ -7,7 +7,7 @@ EXTENDS Structs
 
 Permitted == { "LayoutAssert", "PodPadding" }
 
-RustKeywordsNotReservedByWgsl == { "box", "dyn", "in", "abstract", "become", "final", "macro", "override_", "priv", "try", "typeof", "unsized", "virtual", "yield", "gen" }
+RustKeywordsNotReservedByWgsl == { "box", "dyn", "in", "abstract", "become", "final", "macro", "override_", "priv", "try", "typeof", "unsized", "virtual", "yield" }   \* `gen` is an ordinary identifier up to edition 2021 (reserved from 2024 on)
 FixedItemNames == { "OverrideConstants", "VertexEntry", "FragmentEntry", "SOURCE", "bind_groups", "compute", "PUSH_CONSTANT_STAGES", "String", "Option", "Vec" }
 
 RECURSIVE TyScalars(_, _), TyMaxArray(_, _)
